@@ -179,7 +179,49 @@ func init() {
 	}
 	reg("PEMLen", func(fr *frame, a []Value) Value { fr.e.path.pemLen = int(concInt(a[0])); return nil })
 	reg("Symbolic", func(fr *frame, a []Value) Value { return fr.e.tb.T })
-	reg("Begin", func(fr *frame, a []Value) Value { fr.e.path.writeMark = len(fr.e.undo); return nil })
+	reg("Begin", func(fr *frame, a []Value) Value {
+		e := fr.e
+		p := e.path
+		p.writeMark = len(e.undo)
+		p.preSlots = map[*Value]bool{}
+		p.preObjs = map[*ByteObj]bool{}
+		p.preMaps = map[*MapVal]bool{}
+		if a[0] != nil {
+			for _, r := range a[0].([]Value) {
+				e.reach(r, 0)
+			}
+		}
+		return nil
+	})
+	reg("AssertReadOnly", func(fr *frame, a []Value) Value {
+		e := fr.e
+		p := e.path
+		label := mustStr(a[0])
+		n := 0
+		what := ""
+		for _, u := range e.undo[p.writeMark:] {
+			switch {
+			case u.slot != nil && p.preSlots[u.slot]:
+				n++
+				what = "a field or element of the pre-existing object graph"
+			case u.obj != nil && p.preObjs[u.obj]:
+				n++
+				what = "bytes of a pre-existing buffer " + u.obj.name
+			case u.m != nil && p.preMaps[u.m]:
+				n++
+				what = "a pre-existing map"
+			}
+		}
+		p.writeSet += n
+		// A non-empty write set is not a violation by itself (a benign cache must not raise an
+		// alarm): the concurrency half is then undecided; repeatability is asserted separately.
+		if n > 0 {
+			p.reached = append(p.reached, "writes-to-prestate:"+label+": "+what)
+		} else {
+			p.reached = append(p.reached, "readonly:"+label)
+		}
+		return nil
+	})
 	reg("Observe", func(fr *frame, a []Value) Value { return nil })
 	reg("ObserveBytes", func(fr *frame, a []Value) Value { return nil })
 	reg("AssertBytesEq", func(fr *frame, a []Value) Value {
@@ -315,4 +357,86 @@ func (k *KnownFindings) what(prop, harness, site, tag string) string {
 		}
 	}
 	return ""
+}
+
+// reach collects every slot, byte object and map reachable from v (the pre-state of vsym.Begin).
+func (e *Eng) reach(v Value, depth int) {
+	p := e.path
+	if depth > 200 {
+		return
+	}
+	switch v := v.(type) {
+	case *Value:
+		if v == nil || p.preSlots[v] {
+			return
+		}
+		p.preSlots[v] = true
+		e.reachIn(v, depth+1)
+	case Iface:
+		if v.T != nil {
+			e.reach(v.V, depth+1)
+		}
+	case SliceVal:
+		if v.Obj != nil {
+			p.preObjs[v.Obj] = true
+		}
+	case SymStr:
+		if v.S.Obj != nil {
+			p.preObjs[v.S.Obj] = true
+		}
+	case BArr:
+		p.preObjs[v.Obj] = true
+	case BytePtr:
+		p.preObjs[v.Obj] = true
+	case Struct:
+		for i := range v {
+			e.reachIn(&v[i], depth+1)
+		}
+	case Array:
+		for i := range v {
+			e.reachIn(&v[i], depth+1)
+		}
+	case []Value:
+		full := v[:cap(v)]
+		for i := range full {
+			e.reachIn(&full[i], depth+1)
+		}
+	case *MapVal:
+		if v == nil || p.preMaps[v] {
+			return
+		}
+		p.preMaps[v] = true
+		for _, en := range v.ents {
+			e.reach(en.v, depth+1)
+		}
+	case *Closure:
+		for _, x := range v.Env {
+			e.reach(x, depth+1)
+		}
+	case Tuple:
+		for _, x := range v {
+			e.reach(x, depth+1)
+		}
+	}
+}
+
+// reachIn marks the slot itself (interior slots of aggregates are store targets too) and descends.
+func (e *Eng) reachIn(slot *Value, depth int) {
+	p := e.path
+	if depth > 200 {
+		return
+	}
+	p.preSlots[slot] = true
+	switch v := (*slot).(type) {
+	case Struct:
+		for i := range v {
+			e.reachIn(&v[i], depth+1)
+		}
+	case Array:
+		for i := range v {
+			e.reachIn(&v[i], depth+1)
+		}
+	default:
+		e.reach(*slot, depth+1)
+	}
 }
